@@ -23,7 +23,8 @@ Definition residue_numbers (fi : file_index) (s : suffix) : list Z :=
   match s with
   | SNum n => [n]
   | SClass c => match map fst (filter (fun r => str_eqb (snd r) c) (fi_residues fi)) with [] => [0%Z] | l => l end
-  | SNone | SStar => [0%Z]
+  | SStar => map fst (fi_residues fi)      (* as repaired: _* on the keyword addresses every residue of the file *)
+  | SNone => [0%Z]
   end.
 Definition has_class (s : suffix) : bool := match s with SClass _ => true | _ => false end.
 Definition zsum (l : list Z) : Z := fold_left Z.add l 0%Z.
